@@ -109,7 +109,9 @@ theorem step_broker (s : Store) (r : Request) (c g : String)
   all_goals intro h
   all_goals first
     | exact h
-    | exact mem_groupsOf_set_same ‹alookup r.cluster s.clusters = some _› (fun _ h => h) h
+    | (have hc := ‹alookup r.cluster s.clusters = some _›
+       refine mem_groupsOf_set_same hc ?_ h
+       exact fun _ h => h)
 
 theorem step_commit (s : Store) (now : Int) (r : Request) (c g : String)
     (h : g ∈ groupsOf (addConsumerOffset s now r).1 c) :
@@ -120,9 +122,266 @@ theorem step_commit (s : Store) (now : Int) (r : Request) (c g : String)
   all_goals intro h
   all_goals first
     | exact Or.inl h
-    | (refine mem_groupsOf_set ‹alookup r.cluster s.clusters = some _› (fun e hg => ?_) h
+    | (have hc := ‹alookup r.cluster s.clusters = some _›
+       refine mem_groupsOf_set hc (fun e hg => ?_) h
        rcases mem_akeys_ainsert.1 hg with e2 | e2
        · exact Or.inr ⟨e, e2, by simpa using ‹¬(!accept s.cfg r) = true›⟩
        · exact Or.inl e2)
+
+theorem step_owner (s : Store) (r : Request) (c g : String)
+    (h : g ∈ groupsOf (addConsumerOwner s r).1 c) :
+    g ∈ groupsOf s c ∨ (c = r.cluster ∧ g = r.group ∧ accept s.cfg r = true) := by
+  revert h
+  unfold addConsumerOwner
+  split
+  · exact Or.inl
+  · next cm hc =>
+    split
+    · exact Or.inl
+    · next hacc =>
+      have hacc : accept s.cfg r = true := by simpa using hacc
+      have key1 : ∀ G, g ∈ groupsOf (Store.mk s.cfg (ainsert r.cluster
+            (Cluster.mk cm.broker (ainsert r.group G cm.consumer)) s.clusters)) c →
+          g ∈ groupsOf s c ∨ (c = r.cluster ∧ g = r.group ∧ accept s.cfg r = true) := by
+        intro G h
+        refine mem_groupsOf_set hc (fun e hg => ?_) h
+        rcases mem_akeys_ainsert.1 hg with e2 | e2
+        · exact Or.inr ⟨e, e2, hacc⟩
+        · exact Or.inl e2
+      have key2 : ∀ G G' cm1, g ∈ groupsOf (Store.mk s.cfg (ainsert r.cluster
+            (Cluster.mk cm.broker (ainsert r.group G' (ainsert r.group G cm.consumer)))
+            (ainsert r.cluster cm1 s.clusters))) c →
+          g ∈ groupsOf s c ∨ (c = r.cluster ∧ g = r.group ∧ accept s.cfg r = true) := by
+        intro G G' cm1 h
+        rw [groupsOf_eq] at h
+        simp only [alookup_ainsert] at h
+        by_cases e : c = r.cluster
+        · simp only [e, if_true] at h
+          rcases mem_akeys_ainsert.1 h with e2 | e2
+          · exact Or.inr ⟨e, e2, hacc⟩
+          · rcases mem_akeys_ainsert.1 e2 with e3 | e3
+            · exact Or.inr ⟨e, e3, hacc⟩
+            · left; rw [groupsOf_eq, e, hc]; exact e3
+        · simp only [e, if_false] at h
+          left; rw [groupsOf_eq]; exact h
+      split_all
+      all_goals intro h
+      all_goals first
+        | exact key1 _ h
+        | exact key2 _ _ _ h
+
+theorem step_clear (s : Store) (r : Request) (c g : String)
+    (h : g ∈ groupsOf (clearConsumerOwners s r).1 c) : g ∈ groupsOf s c := by
+  revert h
+  unfold clearConsumerOwners
+  split_all
+  all_goals intro h
+  all_goals first
+    | exact h
+    | (have hc := ‹alookup r.cluster s.clusters = some _›
+       have hg := ‹alookup r.group _ = some _›
+       refine mem_groupsOf_set_same hc ?_ h
+       intro g' hg'
+       rcases mem_akeys_ainsert.1 hg' with e | e
+       · exact e ▸ mem_akeys_iff_alookup.2 ⟨_, hg⟩
+       · exact e)
+
+theorem step_deleteTopic (s : Store) (r : Request) (c g : String)
+    (h : g ∈ groupsOf (deleteTopic s r).1 c) : g ∈ groupsOf s c := by
+  revert h
+  unfold deleteTopic
+  split_all
+  all_goals intro h
+  all_goals first
+    | exact h
+    | (have hc := ‹alookup r.cluster s.clusters = some _›
+       refine mem_groupsOf_set_same hc ?_ h
+       intro g' hg'
+       simpa [akeys, List.map_map, Function.comp_def] using hg')
+
+theorem step_deleteGroup (s : Store) (r : Request) (c g : String)
+    (h : g ∈ groupsOf (deleteGroup s r).1 c) : g ∈ groupsOf s c := by
+  revert h
+  unfold deleteGroup
+  split_all
+  all_goals intro h
+  all_goals first
+    | exact h
+    | (have hc := ‹alookup r.cluster s.clusters = some _›
+       refine mem_groupsOf_set_same hc ?_ h
+       intro g' hg'
+       exact mem_akeys_of_mem_akeys_aerase hg')
+    | (have hc := ‹alookup r.cluster s.clusters = some _›
+       have hg := ‹alookup r.group _ = some _›
+       refine mem_groupsOf_set_same hc ?_ h
+       intro g' hg'
+       rcases mem_akeys_ainsert.1 hg' with e | e
+       · exact e ▸ mem_akeys_iff_alookup.2 ⟨_, hg⟩
+       · exact e)
+
+theorem step_fetchConsumer (s : Store) (now : Int) (c' g' : String) (c g : String)
+    (h : g ∈ groupsOf (fetchConsumer s now c' g').1 c) : g ∈ groupsOf s c := by
+  revert h
+  unfold fetchConsumer
+  split_all
+  all_goals intro h
+  all_goals first
+    | exact h
+    | (have hc := ‹alookup c' s.clusters = some _›
+       refine mem_groupsOf_set_same hc ?_ h
+       intro g' hg'
+       exact mem_akeys_of_mem_akeys_aerase hg')
+
+/-- one request: a group tracked afterwards was tracked before, or the request is an accepted
+    commit / ownership update naming it -/
+theorem step (s : Store) (op : Op) (c g : String) (h : g ∈ groupsOf (apply s op) c) :
+    g ∈ groupsOf s c ∨ (op.creates c g = true ∧ ∃ r, op.request? = some r ∧ accept s.cfg r = true) := by
+  cases op with
+  | broker r => exact Or.inl (step_broker s r c g h)
+  | commit now r =>
+    rcases step_commit s now r c g h with h1 | ⟨h1, h2, h3⟩
+    · exact Or.inl h1
+    · exact Or.inr ⟨by simp [Op.creates, h1, h2], r, rfl, h3⟩
+  | owner r =>
+    rcases step_owner s r c g h with h1 | ⟨h1, h2, h3⟩
+    · exact Or.inl h1
+    · exact Or.inr ⟨by simp [Op.creates, h1, h2], r, rfl, h3⟩
+  | clear r => exact Or.inl (step_clear s r c g h)
+  | deleteTopic r => exact Or.inl (step_deleteTopic s r c g h)
+  | deleteGroup r => exact Or.inl (step_deleteGroup s r c g h)
+  | fetchConsumer now c' g' => exact Or.inl (step_fetchConsumer s now c' g' c g h)
+
+theorem cfg_run (s : Store) (ops : List Op) : (run s ops).cfg = s.cfg := by
+  unfold run
+  induction ops generalizing s with
+  | nil => rfl
+  | cons op ops ih => rw [List.foldl_cons, ih, cfg_apply]
+
+theorem run_cons (s : Store) (op : Op) (ops : List Op) : run s (op :: ops) = run (apply s op) ops := rfl
+
+theorem run_tracks (s : Store) (ops : List Op) (c g : String) (h : g ∈ groupsOf (run s ops) c) :
+    g ∈ groupsOf s c ∨
+      ∃ op ∈ ops, op.creates c g = true ∧ ∃ r, op.request? = some r ∧ accept s.cfg r = true := by
+  induction ops generalizing s with
+  | nil => exact Or.inl h
+  | cons op ops ih =>
+    rw [run_cons] at h
+    rcases ih _ h with h1 | ⟨op', hm, h5, r, h6, h7⟩
+    · rcases step s op c g h1 with h2 | ⟨h2, r, h3, h4⟩
+      · exact Or.inl h2
+      · exact Or.inr ⟨op, List.mem_cons_self, h2, r, h3, h4⟩
+    · rw [cfg_apply] at h7
+      exact Or.inr ⟨op', List.mem_cons_of_mem _ hm, h5, r, h6, h7⟩
+
+theorem init_fold_lookup (c : String) (clusters : List String) : ∀ (acc : List (String × Cluster)),
+    (∀ cm, alookup c acc = some cm → cm.consumer = []) →
+    ∀ cm, alookup c (clusters.foldl (fun acc c => ainsert c { broker := [], consumer := [] } acc) acc) = some cm →
+      cm.consumer = [] := by
+  induction clusters with
+  | nil => intro acc hacc cm h; exact hacc cm h
+  | cons x xs ih =>
+    intro acc hacc cm h
+    rw [List.foldl_cons] at h
+    refine ih _ ?_ cm h
+    intro cm' h'
+    rw [alookup_ainsert] at h'
+    split at h'
+    · cases h'; rfl
+    · exact hacc cm' h'
+
+theorem init_lookup (cfg : Config) (clusters : List String) (c : String) (cm : Cluster)
+    (h : alookup c (Store.init cfg clusters).clusters = some cm) : cm.consumer = [] :=
+  init_fold_lookup c clusters [] (by simp) cm h
+
+theorem groupsOf_init (cfg : Config) (clusters : List String) (c : String) :
+    groupsOf (Store.init cfg clusters) c = [] := by
+  rw [groupsOf_eq]
+  split
+  · rfl
+  · next cm h => rw [init_lookup cfg clusters c cm h]; rfl
+
+theorem storage_tracks_only_accepted (cfg : Config) (clusters : List String) (ops : List Op)
+    (c g : String) (h : g ∈ groupsOf (run (Store.init cfg clusters) ops) c) :
+    ∃ op ∈ ops, op.creates c g = true ∧ ∃ r, op.request? = some r ∧ accept cfg r = true := by
+  rcases run_tracks _ ops c g h with h1 | h1
+  · rw [groupsOf_init] at h1; simp at h1
+  · exact h1
+
+/-! ### the offsets-topic reader -/
+
+open Burrow.Decode in
+theorem ownerReqs_group (group : Bytes) (m : Member) : ∀ r ∈ ownerReqs group m, r.group = group := by
+  intro r hr
+  unfold ownerReqs at hr
+  simp only [List.mem_flatMap, List.mem_map] at hr
+  obtain ⟨⟨t, ps⟩, _, p, _, rfl⟩ := hr
+  rfl
+
+open Burrow.Decode in
+theorem membersLoop_group (version : Int) (group : Bytes) : ∀ (n : Nat) (s : DState) (acc : List Req),
+    (∀ r ∈ acc, r.group = group) → ∀ r ∈ (membersLoop version group n s acc).1, r.group = group := by
+  intro n
+  induction n with
+  | zero => intro s acc h; simpa [membersLoop] using h
+  | succ n ih =>
+    intro s acc h
+    unfold membersLoop
+    split
+    · apply ih
+      intro r hr
+      rcases List.mem_append.1 hr with h1 | h1
+      · exact h r h1
+      · exact ownerReqs_group group _ r h1
+    · exact h
+    · exact h
+
+open Burrow.Decode in
+theorem decodeAndSend_group (version : Int) (group : Bytes) (s : DState) :
+    ∀ r ∈ (decodeAndSendGroupMetadata version group s).reqs, r.group = group := by
+  unfold decodeAndSendGroupMetadata
+  split_all
+  all_goals first
+    | (intro r hr; simp at hr; done)
+    | (intro r hr; simp at hr; subst hr; rfl)
+    | (next heq =>
+        have h2 := congrArg Prod.fst heq
+        simp only at h2
+        rw [← h2]
+        exact membersLoop_group _ _ _ _ _ (by simp))
+
+open Burrow.Decode in
+theorem decodeGroupMetadata_accepted (acc : Decode.Accept) (keyRest value : Bytes) :
+    ∀ r ∈ (decodeGroupMetadata acc keyRest value).reqs, acc r.group = true := by
+  unfold decodeGroupMetadata
+  split_all
+  all_goals first
+    | (intro r hr; simp at hr; done)
+    | (intro r hr
+       have hacc := ‹¬(!acc _) = true›
+       simp only [Bool.not_eq_true', Bool.not_eq_false] at hacc
+       first
+         | (simp at hr; subst hr; exact hacc)
+         | (rw [decodeAndSend_group _ _ _ r hr]; exact hacc))
+
+open Burrow.Decode in
+theorem decodeKeyAndOffset_accepted (acc : Decode.Accept) (order : Int) (keyRest value : Bytes) :
+    ∀ r ∈ (decodeKeyAndOffset acc order keyRest value).reqs, acc r.group = true := by
+  unfold decodeKeyAndOffset
+  split_all
+  all_goals first
+    | (intro r hr; simp at hr; done)
+    | (intro r hr
+       have hacc := ‹¬(!acc _) = true›
+       simp only [Bool.not_eq_true', Bool.not_eq_false] at hacc
+       simp at hr; subst hr; exact hacc)
+
+theorem kafka_reader_forwards_only_accepted (acc : Decode.Accept) (order : Int) (k v : Decode.Bytes) :
+    ∀ r ∈ (Decode.processMessage acc order k v).reqs, acc r.group = true := by
+  unfold Decode.processMessage
+  split_all
+  all_goals first
+    | (intro r hr; simp at hr; done)
+    | exact decodeKeyAndOffset_accepted _ _ _ _
+    | exact decodeGroupMetadata_accepted _ _ _
 
 end Burrow.Proofs.Accept
